@@ -33,6 +33,31 @@ URI_ESC_LENIENT = {'b': '\b', 'f': '\f', 'n': '\n', 'r': '\r', 't': '\t'}
 HEX4 = re.compile(r'[0-9a-fA-F]{4}')
 
 
+_ZONE_CACHE = {}
+
+
+def zone_offset_consistent(utc_us, offs, zone):
+    """A date-time that names a zone must carry the offset that zone has at that instant (pytz is the
+    oracle).  Unknown zone names cannot be judged and pass."""
+    import pytz
+    if zone not in _ZONE_CACHE:
+        _ZONE_CACHE[zone] = [pytz.timezone(z) for z in pytz.all_timezones if z == zone or z.rsplit('/', 1)[-1] == zone]
+    tzs = _ZONE_CACHE[zone]
+    if not tzs:
+        return True
+    try:
+        inst = datetime.datetime(1970, 1, 1, tzinfo=datetime.timezone.utc) + utc_us * US
+    except OverflowError:
+        return True
+    for tz in tzs:
+        try:
+            if int(inst.astimezone(tz).utcoffset().total_seconds()) == offs:
+                return True
+        except (OverflowError, ValueError):
+            return True
+    return False
+
+
 def _frac_us(frac):
     if not frac:
         return 0
@@ -293,6 +318,8 @@ class Reader(object):
         except ValueError:
             self.err('bad date-time')
         utc_us = (local - EPOCH) // US - offs * 1000000
+        if mo.group(9) is not None and not zone_offset_consistent(utc_us, offs, mo.group(9)):
+            self.err('offset %+d s is not the offset of zone %s at that instant' % (offs, mo.group(9)))
         return ('dt', utc_us, offs, mo.group(9))
 
     def string(self):
@@ -420,6 +447,15 @@ def num_spellings(v):
             alts.append(i)
         if abs(v) >= 1000:
             alts.append('{:_}'.format(int(v)))
+    if 'e' not in r and 'n' not in r:
+        # digits := [0-9][0-9_]* : a separator may be doubled and may end a digit run
+        ip, _, fp = alts[0].partition('.')
+        sign, digits = ('-', ip[1:]) if ip.startswith('-') else ('', ip)
+        if len(digits) >= 2:
+            alts.append(sign + digits[0] + '__' + digits[1:] + ('.' + fp if fp else ''))
+        alts.append(sign + digits + '_' + ('.' + fp if fp else ''))
+        if fp:
+            alts.append(sign + digits + '.' + fp + '_')
     if v != 0 and 'e' not in r:
         t = Decimal(r).normalize().as_tuple()
         digits = ''.join(map(str, t.digits))
